@@ -157,6 +157,12 @@ def scenarios(ctx):
                 for b in c[1]:
                     seen.add(("e", b))
         combos = (keep + combos[:30])[:48]
+    # always: a later extension file fails to launch after an earlier one was started and registered - the one that is
+    # running is shut down with the environment that never came up
+    for must in (("neverstarted", ("sub-exits", "launchfail"), "timeout"), ("neverstarted", ("unsub", "launchfail"), "timeout"),
+                 ("neverstarted", ("sub-ignores", "launchfail"), "reset")):
+        if must not in combos and feasible(*must):
+            combos.append(must)
     out = [one("c09-%03d" % i, rnd, rt, exts, trig) for i, (rt, exts, trig) in enumerate(combos)]
     k = 0
     for trig in ("timeout", "failure"):
